@@ -112,6 +112,10 @@ where
     if weighted {
         graph.ensure_weighted()?;
     }
+    if let Some(t) = &target {
+        // an unknown target is an error, as in `single_source` and `multi_source`
+        graph.get_node_index(t)?;
+    }
 
     let parallel =
         graph.number_of_nodes() > SERIAL_TO_PARALLEL_THRESHOLD && rayon::current_num_threads() > 1;
